@@ -187,6 +187,7 @@ func newFileBackend(t testing.TB, tr *tracer, o fileOpts, content []byte, bad []
 		b.sess.s2c.onWrite = nil // the client reads the server's output directly
 		if b.sess.v != nil {
 			b.sess.v.addFile("/f", content)
+			b.sess.v.badBytes = bad
 		}
 		go func() {
 			if b.sess.srv != nil {
@@ -476,7 +477,8 @@ func TestVerif_FilePartial(t *testing.T) {
 	if vThorough() {
 		n = 12000
 	}
-	for i, o := range fileOptsMatrix(r, []string{"peer"}, n) {
+	// the peer controls the reply order; the real RequestServer (failing handlers) puts the real server in the loop
+	for i, o := range fileOptsMatrix(r, []string{"peer", "peer", "rs", "peer", "rs+alloc"}, n) {
 		sc := genFileScenario(r, o, true, false)
 		runFileScenario(t, tr, o, sc, vSeed()*104729+int64(i))
 	}
@@ -596,7 +598,6 @@ func TestVerif_CloseRace(t *testing.T) {
 		cl.Close()
 	}
 }
-
 
 // TestVerif_FileBig (C01): transfers with the default / realistic packet sizes and sizes around packet x max-concurrent-requests.
 func TestVerif_FileBig(t *testing.T) {
